@@ -158,6 +158,29 @@ type ShadowStore struct {
 
 func NewShadowStore() *ShadowStore { return &ShadowStore{m: map[string]KeyShadow{}} }
 
+// Snapshot returns a deep copy of the committed state.
+func (s *ShadowStore) Snapshot() map[string]KeyShadow {
+	s.mu.Lock()
+	defer s.mu.Unlock()
+	out := map[string]KeyShadow{}
+	for k, v := range s.m {
+		out[k] = v.clone()
+	}
+	return out
+}
+
+// Reset replaces the committed state (new epoch: shadow = cut).
+func (s *ShadowStore) Reset(to map[string]KeyShadow) {
+	s.mu.Lock()
+	defer s.mu.Unlock()
+	for k := range s.m {
+		delete(s.m, k)
+	}
+	for k, v := range to {
+		s.m[k] = v.clone()
+	}
+}
+
 // Handler is the scripted recording proto.Handler.
 type Handler struct {
 	Name      string
